@@ -145,7 +145,9 @@ func PEP440(quick bool) []string {
 	}
 	out = append(out, "0", "0.0", "0!1", "00!1.0", "1.0.post", "1.0.dev", "1.0a", "1.0.a.1", "1.0_post1", "1.0-post1", "1.0-r4", "1.0+ABC", "1.0+abc-1", "1.0+abc_1",
 		"1.0.0.0", "1.0.0.0.1", "01.0", "1.00", "1.0a01", "1.0alpha", "1.0-a1", "1.0_a1", "1.0.a1", "1.0rc", "1.0c", "1.0pre", "1.0preview", "1.0.post-1", "1.0post.1",
-		"2!0", "1.0+1.2", "1.0+2.1", "1.0+10", "1.0+9", "1.0+a", "1.0+A", "1.0+b", "1.0+1a", "1.0+a1")
+		"2!0", "1.0+1.2", "1.0+2.1", "1.0+10", "1.0+9", "1.0+a", "1.0+A", "1.0+b", "1.0+1a", "1.0+a1",
+		// numeric local segments with leading zeros compare by value
+		"1.0+01", "1.0+007", "1.0+8", "1.0+2024.01", "1.0+2024.2", "1.0a1+00", "1.0a1+0", "1.0+0", "1.0+00.1", "1.0+0.01")
 	return dedup(out)
 }
 
@@ -165,12 +167,12 @@ func RubyGems(quick bool) []string {
 // Maven returns the §6.4 dash-form domain and, separately, the out-of-domain
 // shapes that only the totality/canon clauses use.
 func Maven(quick bool) (inDomain, outOfDomain []string) {
-	numeric := []string{"1", "1.0", "1.0.0", "1.1", "1.0.1", "2", "0", "1.10", "0.1"}
+	numeric := []string{"1", "1.0", "1.0.0", "1.1", "1.0.1", "2", "0", "1.10", "0.1", "1.00", "1.01", "01", "1.0.02"}
 	qual := []string{"alpha", "a", "beta", "b", "milestone", "m", "rc", "cr", "snapshot", "sp", "foo", "xyz", "ALPHA", "RC", "Beta"}
 	num := []string{"", "1", "2", "10", "-1"}
 	snap := []string{"", "-SNAPSHOT"}
 	if quick {
-		numeric = []string{"1", "1.0", "1.0.0", "1.1", "1.0.1", "2", "0", "1.10"}
+		numeric = []string{"1", "1.0", "1.0.0", "1.1", "1.0.1", "2", "0", "1.10", "1.00", "1.01"}
 		num = []string{"", "1", "2", "-1"}
 	}
 	for _, n := range numeric {
